@@ -1,0 +1,17 @@
+//go:build verif
+
+// Contracts for the verifier in /verif (govc). Comment-only: no declarations.
+
+package upstream
+
+//@ ghost G_hostonly(s interface{}) bool
+
+// ---- C05: every transport hands the bare host name of the upstream URL to the session handshake
+//@ func (ups *Socket) Connect
+//@   property C05
+//@ func (ups *Http) Connect
+//@   property C05
+//@ func (ups *Packet) ConnectPacket
+//@   property C05
+//@ func (ups *Dns) Connect
+//@   property C05
